@@ -447,3 +447,322 @@ Proof.
   apply lsum_ext. intros t Ht. apply tree_counts_spec; auto.
   rewrite Forall_forall in Hwf. auto.
 Qed.
+
+(* ================= nullify_mask and orientation ================= *)
+
+Lemma nullify_spec nt m G a b : (a < nt)%nat -> (b < nt)%nat ->
+  mget (nullify nt (Some m) G) a b = if (a =? m)%nat || (b =? m)%nat then 0 else mget G a b.
+Proof.
+  intros Ha Hb. unfold nullify, projector. rewrite mget_mmul by auto.
+  rewrite (sumn_single _ _ b); auto.
+  - rewrite mget_mmul by auto. rewrite (sumn_single _ _ a); auto.
+    + rewrite !mget_mk by auto. rewrite !Nat.eqb_refl.
+      destruct (a =? m)%nat, (b =? m)%nat; cbn [orb]; ring.
+    + intros i Hi Hne. rewrite mget_mk by auto. destruct (Nat.eqb_spec a i); [congruence|ring].
+  - intros i Hi Hne. rewrite (mget_mk nt nt _ i b) by auto. destruct (Nat.eqb_spec i b); [congruence|ring].
+Qed.
+
+Lemma orient_after nt G : orient nt After G = G.
+Proof. reflexivity. Qed.
+
+Lemma orient_before nt G a b : (a < nt)%nat -> (b < nt)%nat ->
+  mget (orient nt Before G) a b = mget G b a.
+Proof. intros. unfold orient, mtrans. rewrite mget_mk by auto. reflexivity. Qed.
+
+Lemma orient_symmetric nt G a b : (a < nt)%nat -> (b < nt)%nat ->
+  mget (orient nt Symmetric G) a b = mget G a b + mget G b a.
+Proof. intros. unfold orient, mtrans. rewrite mget_madd by auto. rewrite mget_mk by auto. reflexivity. Qed.
+
+Lemma orient_directional nt G a b : (a < nt)%nat -> (b < nt + nt)%nat ->
+  mget (orient nt Directional G) a b = if (b <? nt)%nat then mget G b a else mget G a (b - nt).
+Proof.
+  intros Ha Hb. unfold orient, hstack. rewrite mget_mk by auto.
+  destruct (Nat.ltb_spec b nt); [|reflexivity]. unfold mtrans. rewrite mget_mk by auto. reflexivity.
+Qed.
+
+(* ================= path graphs = token windows ================= *)
+
+Lemma succs_path L u : (u < L)%nat -> succs (path L) u = if (S u <? L)%nat then [S u] else [].
+Proof. intros H. unfold succs, path. apply nth_map_seq. exact H. Qed.
+
+Lemma path_length L : length (path L) = L.
+Proof. unfold path. rewrite map_length, seq_length. reflexivity. Qed.
+
+Lemma wf_path L : wf_graph (path L).
+Proof.
+  intros u x Hx. rewrite path_length. destruct (Nat.lt_ge_cases u L) as [Hu|Hu].
+  - rewrite succs_path in Hx by exact Hu. destruct (Nat.ltb_spec (S u) L); [|destruct Hx].
+    destruct Hx as [<-|[]]. exact H.
+  - unfold succs in Hx. rewrite nth_overflow in Hx by (rewrite path_length; exact Hu). destruct Hx.
+Qed.
+
+Lemma walks_path L k : forall u v, (u < L)%nat ->
+  walks (path L) k u v = ind ((u + k =? v)%nat && (v <? L)%nat).
+Proof.
+  induction k as [|k IH]; intros u v Hu.
+  - cbn [walks]. rewrite Nat.add_0_r. destruct (Nat.eqb_spec u v); [|reflexivity].
+    subst. destruct (Nat.ltb_spec v L); [reflexivity|lia].
+  - cbn [walks]. rewrite succs_path by exact Hu. destruct (Nat.ltb_spec (S u) L) as [H|H].
+    + rewrite lsum_cons. unfold lsum at 1. cbn [fold_right]. rewrite IH by exact H.
+      replace (S u + k)%nat with (u + S k)%nat by lia. ring.
+    + unfold lsum. cbn [fold_right].
+      destruct (Nat.eqb_spec (u + S k) v); [|reflexivity].
+      destruct (Nat.ltb_spec v L); [lia|reflexivity].
+Qed.
+
+Lemma weighted_walks_path ws L u v : (u < L)%nat -> (v < L)%nat ->
+  weighted_walks ws (path L) u v =
+  if (u <? v)%nat && (v <=? u + length ws)%nat then nth (v - u - 1) ws 0 else 0.
+Proof.
+  intros Hu Hv. unfold weighted_walks.
+  destruct (Nat.ltb_spec u v) as [Huv|Huv]; [destruct (Nat.leb_spec v (u + length ws)) as [Hr|Hr]|]; cbn [andb].
+  - rewrite (sumn_single _ _ (v - u - 1)%nat); [|lia|].
+    + rewrite walks_path by exact Hu.
+      replace (u + S (v - u - 1) =? v)%nat with true by (symmetry; apply Nat.eqb_eq; lia).
+      replace (v <? L)%nat with true by (symmetry; apply Nat.ltb_lt; exact Hv). cbn [andb ind]. ring.
+    + intros i Hi Hne. rewrite walks_path by exact Hu.
+      destruct (Nat.eqb_spec (u + S i) v); [lia|]. cbn [andb ind]. ring.
+  - apply sumn_zero. intros i Hi. rewrite walks_path by exact Hu.
+    destruct (Nat.eqb_spec (u + S i) v); [lia|]. cbn [andb ind]. ring.
+  - apply sumn_zero. intros i Hi. rewrite walks_path by exact Hu.
+    destruct (Nat.eqb_spec (u + S i) v); [lia|]. cbn [andb ind]. ring.
+Qed.
+
+Definition path_tree (s : list nat) : tree := (path (length s), s).
+
+Lemma wf_path_tree s : wf_tree (path_tree s).
+Proof. split; cbn [fst snd path_tree]; [apply wf_path|rewrite path_length; reflexivity]. Qed.
+
+Lemma tree_spec_path ws d s a b : tree_spec ws d (path_tree s) a b = token_after_spec ws d s a b.
+Proof.
+  unfold tree_spec, token_after_spec, path_tree. cbn [fst snd]. rewrite path_length.
+  apply sumn_ext. intros p Hp. apply sumn_ext. intros q Hq.
+  rewrite weighted_walks_path by auto.
+  destruct (opt_eqb (lookup d (nth p s 0%nat)) a), (opt_eqb (lookup d (nth q s 0%nat)) b),
+    ((p <? q)%nat), ((q <=? p + length ws)%nat); cbn [andb ind]; ring.
+Qed.
+
+Lemma path_is_token ws nt d docs a b : (a < nt)%nat -> (b < nt)%nat ->
+  mget (global_counts ws nt d (map path_tree docs)) a b
+  = lsum (fun s => token_after_spec ws d s a b) docs.
+Proof.
+  intros Ha Hb. rewrite global_counts_spec; auto.
+  - induction docs as [|s docs IH]; [reflexivity|]. cbn [map]. rewrite !lsum_cons, IH, tree_spec_path. reflexivity.
+  - rewrite Forall_forall. intros t Ht. apply in_map_iff in Ht as [s [<- _]]. apply wf_path_tree.
+Qed.
+
+(* ================= remove_node ================= *)
+
+Lemma splice_nil x repl : splice x repl [] = [].
+Proof. reflexivity. Qed.
+
+Lemma remove_node_length g x : length (remove_node g x) = length g.
+Proof. unfold remove_node. rewrite map_length, combine_length, seq_length. lia. Qed.
+
+Lemma succs_remove g x i :
+  succs (remove_node g x) i =
+  if (i =? x)%nat then [] else splice x (splice x [] (succs g x)) (succs g i).
+Proof.
+  unfold succs at 1. unfold remove_node.
+  set (repl := splice x [] (succs g x)).
+  set (F := fun ir : nat * list nat => if (fst ir =? x)%nat then [] else splice x repl (snd ir)).
+  assert (F0 : F (0%nat, []) = []) by (unfold F; cbn [fst snd]; destruct (0 =? x)%nat; reflexivity).
+  destruct (Nat.lt_ge_cases i (length g)) as [Hi|Hi].
+  - rewrite <- F0 at 1. rewrite map_nth. rewrite combine_nth by (rewrite seq_length; reflexivity).
+    rewrite seq_nth by exact Hi. unfold F. cbn [fst snd Nat.add]. reflexivity.
+  - rewrite nth_overflow by (rewrite map_length, combine_length, seq_length; lia).
+    replace (succs g i) with (@nil nat) by (unfold succs; rewrite nth_overflow by exact Hi; reflexivity).
+    rewrite splice_nil.
+    destruct (i =? x)%nat; reflexivity.
+Qed.
+
+Lemma splice_in_sound x repl row y :
+  In y (splice x repl row) -> In y row \/ (In x row /\ In y repl).
+Proof.
+  induction row as [|z r IH]; cbn [splice]; [tauto|].
+  destruct (Nat.eqb_spec z x) as [->|Hne].
+  - rewrite in_app_iff. cbn [In]. tauto.
+  - cbn [In]. intros [->|H]; [tauto|]. apply IH in H. tauto.
+Qed.
+
+Lemma splice_in_complete x repl row y :
+  (In y row /\ y <> x) \/ (In x row /\ In y repl) -> In y (splice x repl row).
+Proof.
+  induction row as [|z r IH]; cbn [splice In]; [tauto|].
+  destruct (Nat.eqb_spec z x) as [->|Hne].
+  - rewrite in_app_iff. intros [[[->|H] Hy]|[_ H]]; tauto.
+  - cbn [In]. intros [[[->|H] Hy]|[[E|H1] H2]].
+    + left; reflexivity.
+    + right. apply IH. tauto.
+    + congruence.
+    + right. apply IH. tauto.
+Qed.
+
+Lemma splice_not_in x repl row : NoDup row -> ~ In x repl -> ~ In x (splice x repl row).
+Proof.
+  induction row as [|z r IH]; cbn [splice]; intros ND Hr; [tauto|].
+  inversion ND as [|? ? Hz ND']; subst.
+  destruct (Nat.eqb_spec z x) as [->|Hne].
+  - rewrite in_app_iff. tauto.
+  - cbn [In]. intros [E|H]; [congruence|]. apply IH in H; auto.
+Qed.
+
+Lemma NoDup_app_disjoint {A} (l1 l2 : list A) :
+  NoDup l1 -> NoDup l2 -> (forall y, In y l1 -> In y l2 -> False) -> NoDup (l1 ++ l2).
+Proof.
+  induction l1 as [|a l1 IH]; intros N1 N2 D; [exact N2|].
+  inversion N1 as [|? ? Ha N1']; subst. cbn. constructor.
+  - rewrite in_app_iff. intros [H|H]; [tauto|]. apply (D a); cbn; auto.
+  - apply IH; auto. intros y H1 H2. apply (D y); cbn; auto.
+Qed.
+
+Lemma splice_NoDup x repl row : NoDup row -> NoDup repl ->
+  (forall y, In y repl -> In y row -> y = x) -> NoDup (splice x repl row).
+Proof.
+  induction row as [|z r IH]; cbn [splice]; intros ND NDr Hdis; [constructor|].
+  inversion ND as [|? ? Hz ND']; subst.
+  destruct (Nat.eqb_spec z x) as [->|Hne].
+  - apply NoDup_app_disjoint; auto. intros y Hy1 Hy2. assert (y = x) by (apply Hdis; cbn; auto). subst. tauto.
+  - constructor.
+    + intros H. apply splice_in_sound in H. destruct H as [H|[_ H]]; [tauto|].
+      apply Hne. apply Hdis; cbn; auto.
+    + apply IH; auto. intros y Hy1 Hy2. apply Hdis; cbn; auto.
+Qed.
+
+Lemma edge_remove_sound g x a b :
+  edge (remove_node g x) a b -> a <> x /\ (edge g a b \/ (edge g a x /\ edge g x b)).
+Proof.
+  unfold edge. rewrite succs_remove. destruct (Nat.eqb_spec a x) as [->|Hne]; [intros []|].
+  intros H. split; [exact Hne|]. apply splice_in_sound in H. destruct H as [H|[H1 H2]]; [tauto|].
+  right. split; [exact H1|]. apply splice_in_sound in H2. cbn [In] in H2. tauto.
+Qed.
+
+Lemma edge_remove_keep g x a b : a <> x -> b <> x -> edge g a b -> edge (remove_node g x) a b.
+Proof.
+  unfold edge. intros Ha Hb H. rewrite succs_remove. destruct (Nat.eqb_spec a x); [congruence|].
+  apply splice_in_complete. tauto.
+Qed.
+
+Lemma edge_remove_bridge g x a b :
+  a <> x -> b <> x -> edge g a x -> edge g x b -> edge (remove_node g x) a b.
+Proof.
+  unfold edge. intros Ha Hb H1 H2. rewrite succs_remove. destruct (Nat.eqb_spec a x); [congruence|].
+  apply splice_in_complete. right. split; [exact H1|]. apply splice_in_complete. tauto.
+Qed.
+
+Lemma reach_trans g a b c : reach g a b -> reach g b c -> reach g a c.
+Proof.
+  unfold reach. intros H1 H2. apply clos_rt_rt1n. apply rt_trans with b; apply clos_rt1n_rt; assumption.
+Qed.
+
+Lemma reach_step g a b : edge g a b -> reach g a b.
+Proof. intros H. unfold reach. eapply Relation_Operators.rt1n_trans; [exact H|apply rt1n_refl]. Qed.
+
+Lemma reach_remove_sound g x u v : reach (remove_node g x) u v -> reach g u v.
+Proof.
+  unfold reach. induction 1 as [|a b c Hab _ IH]; [apply rt1n_refl|].
+  apply edge_remove_sound in Hab as [_ [H|[H1 H2]]].
+  - eapply Relation_Operators.rt1n_trans; eauto.
+  - eapply Relation_Operators.rt1n_trans; [exact H1|]. eapply Relation_Operators.rt1n_trans; eauto.
+Qed.
+
+Lemma reach_remove_complete_aux g x a v : reach g a v -> v <> x ->
+  (a <> x -> reach (remove_node g x) a v) /\
+  (a = x -> forall u, u <> x -> edge g u x -> reach (remove_node g x) u v).
+Proof.
+  unfold reach. induction 1 as [a|a b c Hab Hbc IH]; intros Hv.
+  - split; [intros; apply rt1n_refl|congruence].
+  - destruct (IH Hv) as [IH1 IH2]. split.
+    + intros Ha. destruct (Nat.eq_dec b x) as [->|Hb].
+      * apply (IH2 eq_refl a Ha Hab).
+      * eapply Relation_Operators.rt1n_trans; [apply edge_remove_keep; eauto|]. auto.
+    + intros -> u Hu Hux. destruct (Nat.eq_dec b x) as [->|Hb].
+      * apply (IH2 eq_refl u Hu Hux).
+      * eapply Relation_Operators.rt1n_trans; [apply (edge_remove_bridge g x u b); eauto|]. auto.
+Qed.
+
+Lemma reach_remove g x u v : u <> x -> v <> x -> (reach (remove_node g x) u v <-> reach g u v).
+Proof.
+  intros Hu Hv. split; [apply reach_remove_sound|].
+  intros H. destruct (reach_remove_complete_aux g x u v H Hv) as [H1 _]. auto.
+Qed.
+
+Lemma reach_remove_list xs : forall g u v, ~ In u xs -> ~ In v xs ->
+  (reach (fold_left remove_node xs g) u v <-> reach g u v).
+Proof.
+  induction xs as [|x xs IH]; intros g u v Hu Hv; [reflexivity|].
+  cbn [fold_left]. rewrite IH by (cbn in *; tauto). apply reach_remove; cbn in *; intuition.
+Qed.
+
+(* --- forests: the removed node ends up isolated and the result is again a forest --- *)
+
+Definition isolated (g : graph) (x : nat) : Prop := succs g x = [] /\ forall a, ~ edge g a x.
+
+Lemma out_forest_remove g x : out_forest g -> out_forest (remove_node g x).
+Proof.
+  intros [ND UP]. split.
+  - intros u. rewrite succs_remove. destruct (Nat.eqb_spec u x) as [->|Hne]; [constructor|].
+    apply splice_NoDup; auto.
+    + apply splice_NoDup; auto; [constructor|]. intros y [].
+    + intros y Hy1 Hy2. apply splice_in_sound in Hy1. cbn [In] in Hy1.
+      assert (In y (succs g x)) by tauto. exfalso. apply Hne. apply (UP u x y); auto.
+  - intros u u' v H1 H2.
+    apply edge_remove_sound in H1 as [Hu [H1|[H1 H1']]]; apply edge_remove_sound in H2 as [Hu' [H2|[H2 H2']]].
+    + eapply UP; eauto.
+    + exfalso. apply Hu. eapply UP; eauto.
+    + exfalso. apply Hu'. eapply UP; eauto.
+    + eapply UP; eauto.
+Qed.
+
+Lemma isolated_remove_self g x : out_forest g -> isolated (remove_node g x) x.
+Proof.
+  intros [ND UP]. split.
+  - rewrite succs_remove, Nat.eqb_refl. reflexivity.
+  - intros a. unfold edge. rewrite succs_remove. destruct (Nat.eqb_spec a x); [tauto|].
+    apply splice_not_in; auto. apply splice_not_in; auto.
+Qed.
+
+Lemma isolated_remove_other g x y : isolated g y -> isolated (remove_node g x) y.
+Proof.
+  intros [Hs Hin]. split.
+  - rewrite succs_remove, Hs, splice_nil. destruct (y =? x)%nat; reflexivity.
+  - intros a H. apply edge_remove_sound in H as [_ [H|[_ H]]]; eapply Hin; eauto.
+Qed.
+
+Lemma remove_list_isolated xs : forall g, out_forest g ->
+  out_forest (fold_left remove_node xs g) /\
+  forall x, (In x xs \/ isolated g x) -> isolated (fold_left remove_node xs g) x.
+Proof.
+  induction xs as [|y xs IH]; intros g Hf.
+  - cbn. split; [exact Hf|]. intros x [[]|H]; exact H.
+  - cbn [fold_left]. destruct (IH (remove_node g y) (out_forest_remove g y Hf)) as [IH1 IH2].
+    split; [exact IH1|]. intros x [[->|H]|H].
+    + apply IH2. right. apply isolated_remove_self. exact Hf.
+    + apply IH2. left. exact H.
+    + apply IH2. right. apply isolated_remove_other. exact H.
+Qed.
+
+Lemma wf_graph_remove g x : wf_graph g -> wf_graph (remove_node g x).
+Proof.
+  intros Hwf u b H. rewrite remove_node_length.
+  apply edge_remove_sound in H as [_ [H|[_ H]]]; eapply Hwf; eauto.
+Qed.
+
+Lemma wf_graph_remove_list xs : forall g, wf_graph g ->
+  wf_graph (fold_left remove_node xs g) /\ length (fold_left remove_node xs g) = length g.
+Proof.
+  induction xs as [|x xs IH]; intros g H; [cbn; auto|].
+  cbn [fold_left]. destruct (IH (remove_node g x) (wf_graph_remove g x H)) as [H1 H2].
+  split; [exact H1|]. rewrite H2. apply remove_node_length.
+Qed.
+
+Lemma wf_preprocess mask d t : wf_tree t -> wf_tree (preprocess mask d t).
+Proof.
+  destruct t as [g labels]. intros [Hwf Hlen]. cbn [fst snd] in *. unfold preprocess.
+  destruct mask as [m|].
+  - split; cbn [fst snd]; [exact Hwf|]. rewrite map_length. exact Hlen.
+  - destruct (wf_graph_remove_list
+                (filter (fun i => negb (in_dict d (nth i labels 0%nat))) (seq 0 (length labels))) g Hwf)
+      as [H1 H2].
+    split; cbn [fst snd]; [exact H1|]. rewrite H2. exact Hlen.
+Qed.
